@@ -4,8 +4,10 @@ import (
 	"encoding/json"
 	"fmt"
 	"math/rand"
+	"net/url"
 	"os"
 	"path/filepath"
+	"sort"
 	"strings"
 
 	"github.com/smhanov/syzgydb"
@@ -143,6 +145,7 @@ func restC18(o *Opts) {
 		}
 		req := genMutatedRequest(rng)
 		before, okb := srv.observe()
+		filesBefore := fileNames(srv.folder)
 		res.Evaluations++
 		res.DistinctCase(req.Method + " " + req.Path + " " + req.Body)
 		var body []byte
@@ -161,12 +164,55 @@ func restC18(o *Opts) {
 		if !srv.alive() {
 			res.Violate("impl-failure", "C18/server-died/"+req.Why, fmt.Sprintf("the server process stopped serving after %s %s", req.Method, req.Path), replay)
 			srv.kill()
-			srv.start()
+			if !srv.start() { // does not even start on what the request left behind: begin again on an empty folder
+				res.Violate("impl-failure", "C18/server-does-not-restart/"+req.Why, fmt.Sprintf("after %s %s the server no longer starts on its data folder", req.Method, req.Path), replay)
+				srv.kill()
+				os.RemoveAll(srv.folder)
+				os.MkdirAll(srv.folder, 0755)
+				if !srv.start() {
+					fatal("server does not start on an empty folder: %s", srv.log.String())
+				}
+				setup()
+			}
 			continue
 		}
 		after, oka := srv.observe()
 		if okb && oka && (r.Status >= 400 || r.Status == 0) && before != after {
 			res.Violate("impl-failure", "C18/rejected-request-changed-state/"+req.Why, fmt.Sprintf("%s %s was answered %d but the observable state changed", req.Method, req.Path, r.Status), map[string]any{"request": req, "before": before, "after": after})
+		}
+		if r.Status >= 400 {
+			// the state on disk is part of "all collections": a file that appears or disappears under a
+			// refused request shows up as a different set of collections at the next restart
+			if filesAfter := fileNames(srv.folder); filesAfter != filesBefore {
+				res.Violate("impl-failure", "C18/rejected-request-changed-files/"+req.Why, fmt.Sprintf("%s %s was answered %d but the data folder changed: %s -> %s", req.Method, req.Path, r.Status, filesBefore, filesAfter), map[string]any{"request": req, "files_before": filesBefore, "files_after": filesAfter})
+			}
+			// a refused create must not stand in the way of a valid create of the same name
+			if req.Method == "POST" && req.Path == "/api/v1/collections" {
+				var b struct {
+					Name string `json:"name"`
+				}
+				if json.Unmarshal([]byte(req.Body), &b) == nil && b.Name != "" && b.Name != "c1" && b.Name != "c2" && !strings.ContainsAny(b.Name, "/\\.\x00") {
+					if g := srv.do("GET", "/api/v1/collections/"+url.PathEscape(b.Name), nil); g.Status == 404 {
+						v := srv.do("POST", "/api/v1/collections", []byte(jsonS(map[string]any{"name": b.Name, "distance_function": "euclidean", "vector_size": 3, "quantization": 64})))
+						if dead := !srv.alive(); v.Status != 201 || dead {
+							res.Violate("impl-failure", "C18/valid-create-after-refused-create", fmt.Sprintf("after the refused create (%d) of %q a valid create of that name was answered %d %s (server still serving: %v)", r.Status, b.Name, v.Status, abbreviate(v.Dropped, 80), !dead), map[string]any{"request": req})
+							if dead {
+								srv.kill()
+								os.Remove(filepath.Join(srv.folder, b.Name+".dat"))
+								if !srv.start() {
+									srv.kill()
+									os.RemoveAll(srv.folder)
+									os.MkdirAll(srv.folder, 0755)
+									srv.start()
+									setup()
+								}
+							}
+						}
+						srv.do("DELETE", "/api/v1/collections/"+url.PathEscape(b.Name), nil)
+						res.Hit("followup-create")
+					}
+				}
+			}
 		}
 		if okb && oka {
 			res.TracesValidated++
@@ -195,6 +241,9 @@ func restC18(o *Opts) {
 				return "ok"
 			})
 			supported := (q == 4 || q == 8 || q == 16 || q == 32 || q == 64) && d > 0
+			if _, statErr := os.Stat(path); out == "err" && statErr == nil {
+				res.Violate("impl-failure", "C18/refused-constructor-left-a-file", fmt.Sprintf("NewCollection(quantization=%d, dimension=%d) returned an error but left %s behind (a later open of that name finds a collection that cannot store documents)", q, d, filepath.Base(path)), map[string]any{"quantization": q, "dimension": d})
+			}
 			if !supported && out != "err" {
 				res.Violate("impl-failure", "C18/constructor-accepts-unsupported-options", fmt.Sprintf("NewCollection(quantization=%d, dimension=%d) returned a collection (%s) instead of an error", q, d, out), map[string]any{"quantization": q, "dimension": d})
 			}
@@ -205,3 +254,14 @@ func restC18(o *Opts) {
 }
 
 func init() { subcommands["rest-C18"] = restC18 }
+
+// names of the files in the data folder
+func fileNames(folder string) string {
+	ents, _ := os.ReadDir(folder)
+	var names []string
+	for _, e := range ents {
+		names = append(names, e.Name())
+	}
+	sort.Strings(names)
+	return strings.Join(names, ",")
+}
